@@ -4399,7 +4399,7 @@ let parse_equation_terms equation =
                else Ret (app lhs rhs)
         | Raise e -> Raise e)
      | Raise e -> Raise e)
-  | None -> Raise ValueError
+  | None -> Raise ParserError
 
 (** val template_of : item list -> char list **)
 
